@@ -208,13 +208,7 @@ func c02BoundaryCases(r *Rng, big bool) []c02BoundaryCase {
 		add("comments", c02CommentsCount(n))
 	}
 	add("varint-widths", c02VarintWidths())
-	if big { // 2^21 = 2097152: stacks, line lists, strings
-		for _, n := range []int{2097140, 2097146, 2097152} {
-			add("stack-2m", c02StackWindow(n, n+2, 1))
-		}
-		add("lines-2m", c02LinesWindow(349524, 349525))
-		add("string-2m", c02StringWindow(2097150, 2097153))
-	}
+	_ = big // the 2^21 cases are produced by c02BigBoundaryCases and run one at a time on a light path
 	return out
 }
 
@@ -242,4 +236,17 @@ func c02ElementSizes(b []byte, hit func(kind string, size int)) {
 			hit(n, len(f.data))
 		}
 	}
+}
+
+// c02BigBoundaryCases: the varint length boundary 2^21 (thorough tier only). One element per
+// profile; they are built, checked and released one at a time (c02BigBoundary).
+func c02BigBoundaryCases() []func() c02BoundaryCase {
+	var out []func() c02BoundaryCase
+	for _, n := range []int{2097141, 2097143, 2097145, 2097147} { // sample sizes 2097150 … 2097156
+		n := n
+		out = append(out, func() c02BoundaryCase { return c02BoundaryCase{"stack-2m", c02StackWindow(n, n, 1)} })
+	}
+	out = append(out, func() c02BoundaryCase { return c02BoundaryCase{"lines-2m", c02LinesWindow(349524, 349524)} })
+	out = append(out, func() c02BoundaryCase { return c02BoundaryCase{"string-2m", c02StringWindow(2097150, 2097153)} })
+	return out
 }
